@@ -235,4 +235,51 @@ theorem addAll_rerun (H : List Node → Id) (h0 h1 : Id → Bool) :
                 exact List.mem_map.mpr ⟨_, this, rfl⟩
           rw [this] at hf; cases hf
 
+/-! ### A backup without parent: what goes to the data packer is a function of the item CONTENTS -/
+
+/-- what a backup without parent hands to `data_packer.add` for one item: the chunks of its content that the index lacks -/
+def itemAdds {γ} (chunk : γ → List Id) (hd : Id → Bool) : Item γ → List Id
+  | .other node x => if node.kind = .file then (chunk x).filter (fun i => !hd i) else []
+  | _ => []
+
+/-- the node with another RECORDED size (`node.meta.size`: what `stat` / the source reported, not what the reader delivers) -/
+def withSize (n : Node) (s : Nat) : Node := { n with md := { n.md with size := s } }
+
+/-- every non-directory item records an arbitrary other size (`f`), the contents stay -/
+def resizeItem {γ} (f : Node → Nat) : Item γ → Item γ
+  | .other node x => .other (withSize node (f node)) x
+  | it => it
+
+theorem itemAdds_resize {γ} (chunk : γ → List Id) (hd : Id → Bool) (f : Node → Nat) (it : Item γ) :
+    itemAdds chunk hd (resizeItem f it) = itemAdds chunk hd it := by
+  cases it <;> simp [resizeItem, itemAdds, withSize]
+
+theorem adds_of_full_run {γ} (chunk : γ → List Id) (len : γ → Nat) (o : Opts) (load : Id → Option (List Node))
+    (hd : Id → Bool) : ∀ (items : List (Item γ)) (st : PState), EmptyP st →
+      (((run o load hd st items).filterMap (fileStep chunk len hd)).map (·.2.1)).flatten =
+        (items.map (itemAdds chunk hd)).flatten
+  | [], _, _ => rfl
+  | it :: its, st, h => by
+    obtain ⟨_, h'⟩ := process_emptyP o load hd hd st it h
+    have ih := adds_of_full_run chunk len o load hd its _ h'
+    have hip : ∀ node name, isParent o st node name = (st, .notFound) := by
+      intro node name
+      obtain ⟨ht, _⟩ := h
+      cases st with
+      | mk trees stack => simp only at ht; subst ht; simp [isParent, isParentGo]
+    simp only [run, List.map_cons, List.flatten_cons]
+    rw [← ih]
+    cases it with
+    | newTree node name => simp [process, hip, fileStep, itemAdds]
+    | endTree =>
+      simp only [process]
+      cases finishDir st with
+      | none =>
+        have e : fileStep chunk len hd (Out.stackEmpty : Out γ) = none := rfl
+        simp only [List.filterMap_cons, e]
+        simp [itemAdds]
+      | some st' => simp [fileStep, itemAdds]
+    | other node x =>
+      by_cases hk : node.kind = .file <;> simp [process, hip, fileStep, itemAdds, PRes.isMatched, hk]
+
 end Rustic.Archive
